@@ -412,8 +412,9 @@ def cases(tier):
         for fm in (("nikuradse",) if tier == "quick" else scopes.FRICTION):
             out.append({"part": "b", "case": c, "friction": fm})
     for topo in c10.TOPOS:
-        for pt, dev in enum.deviations([d for d in c10.dims(topo) if d[0] != "numba"], 1 if tier == "quick" else 2):
-            out.append({"part": "b", "case": {"scope": "T", "topo": topo, "point": dict(pt, numba=False)}})
+        for fluid in ("water", "lgas"):   # the deviation bound applies per fluid (gas + reversed pipe is a pair otherwise)
+            for pt, dev in enum.deviations([d for d in c10.dims(topo) if d[0] not in ("numba", "fluid")], 1 if tier == "quick" else 2):
+                out.append({"part": "b", "case": {"scope": "T", "topo": topo, "point": dict(pt, numba=False, fluid=fluid)}})
     for lc in c01.loop_cases():
         for mode in ("sequential", "bidirectional"):
             out.append({"part": "b", "case": dict(lc, mode=mode)})
